@@ -180,8 +180,11 @@ def check(case):
     # from_labels splits by the genuine label
     sco = np.concatenate([g, f])
     perm = np.random.RandomState(case["order"]).permutation(n + m_)
-    for gl, fl_ in ((5, 2), (0, 1), (True, False), (False, True), ("g", "f"), ("", "x")):
+    for gl, fl_ in ((5, 2), (0, 1), (True, False), (False, True), ("g", "f"), ("", "x"), (0.1, 0.7), (0.2, 0.1)):
         lab = np.asarray([gl] * n + [fl_] * m_) if n + m_ else np.asarray([], dtype=type(gl))
+        if isinstance(gl, float):
+            # single / half precision label column, the genuine label written as a Python number
+            lab = lab.astype(np.float32 if gl == 0.1 else np.float16)
         fl = FraudScores.from_labels(lab[perm], sco[perm], genuine_label=gl, score_class=sc_arg,
                                      nb_easy_genuines=case["eg"], nb_easy_frauds=case["ef"])
         require(isinstance(fl, FraudScores) and fl == fs, "fraud:from-labels",
